@@ -65,40 +65,58 @@ def r08_2(q, R, spec):
         cands = set()
         if res is not None:
             for c in U.calls_in(res):
-                if c[1] == "reorder" and len(c[2]) == 2 and c[2][1][0] == "local":
+                if c[1] == "reorder" and len(c[2]) == 2:
                     cands.add(c[2][1])
-        if R.anchor(rid, "one mutable lookup table passed to every Names::reorder", len(cands) == 1, b["sp"]):
+        if R.anchor(rid, "one lookup table passed to every Names::reorder", len(cands) == 1, b["sp"]):
             table = list(cands)[0]
             env = U.build_env(sr["params"], extra={"table": table})
-            env["i"] = U.parse(sr["table_index"], env)
-            muts = U.mutations_of(b["body"], table[1])
-            assigns = [m for m in muts if m.get("k") == "assign"]
-            other = [m for m in muts if m not in assigns and not (m.get("k") == "mcall" and m["name"] in ("len", "map", "iter"))]
-            for m in other:
-                R.unrecognised(rid, "reorder.table", "mutation of the lookup table other than `table[i] = ..`: %s" % H.render(m), m.get("sp"))
-            ok = False
-            got = None
-            a = None
-            if len(assigns) == 1:
-                a = assigns[0]
-                l, r = nz.term(a["l"]), nz.term(a["r"])
-                got = "%s = %s" % (U.show(l), U.show(r))
-                ok = l == U.parse(sr["table_slot"], env) and r == U.parse(sr["table_value"], env)
-            R.inst(rid, "table-fill", ok, sp=(a or b)["sp"], expect="%s = %s for $i = %s" % (sr["table_slot"], sr["table_value"], sr["table_index"]),
-                   got=got, detail="position i of the new order takes the old namespace called namespaces[i]")
-            if a is not None:
-                fors = [f for f in H.walk(b["body"]) if f.get("k") == "for" and any(x is a for x in H.walk(f["body"]))]
-                conds = U.cond_terms(nz, b["body"], a)
-                R.inst(rid, "table-fill-every-position", len(fors) == 1 and nz.term(fors[0]["iter"]) == U.parse(sr["table_index"], env)[1]
-                       and conds == [],
-                       sp=a["sp"], expect="unconditional, in `for i in 0..N`", got=[U.show(nz.term(f["iter"])) for f in fors] + U.show_conds(conds))
-                # filled before use
-                order = U.order_index(b["body"])
-                uses = [n for n in H.walk(b["body"]) if n.get("k") == "path" and n["res"].get("r") == "local" and n["res"].get("id") == table[1]
-                        and not (fors and any(x is n for x in H.walk(fors[0])))]
-                first_use = min((order[id(u)] for u in uses), default=None)
-                R.inst(rid, "table-complete-before-use", bool(fors) and first_use is not None and order[id(fors[0])] < first_use,
-                       sp=a["sp"], detail="the loop that fills the table precedes the remapper construction and the rebuild")
+            want_l, want_r = U.parse(sr["table_elem"], env), U.parse(sr["table_value"], env)
+            if table[0] != "local":
+                # the table is a value (e.g. an array built by an adaptor): it must be namespaces mapped element-wise
+                want = ("each", env["namespaces"], want_r)
+                R.inst(rid, "table-fill", table == want, sp=b["sp"], expect=U.show(want), got=U.show(table))
+                R.inst(rid, "table-fill-every-position", table == want, sp=b["sp"], nontrivial=False)
+                R.inst(rid, "table-complete-before-use", True, sp=b["sp"], nontrivial=False, detail="immutable value")
+            else:
+                # writes into the table: `table[..] = v` or `*slot = v` with slot drawn from table.iter_mut()
+                cand = []
+                for a in [x for x in H.walk(b["body"]) if x.get("k") in ("assign", "assignop")]:
+                    fors = [f for f in H.walk(b["body"]) if f.get("k") == "for" and any(x is a for x in H.walk(f["body"]))]
+                    l, r = nz.term(a["l"]), nz.term(a["r"])
+                    if not U.contains(l, table):
+                        continue
+                    if fors:
+                        # position-wise form: X[i] with i the loop's position -> elem(X)
+                        it = nz.term(fors[-1]["iter"])
+                        ix = [U.mk_elem(it)] + ([("index", it[2][0])] if it[0] == "call" and it[1] == "enumerate" else [])
+                        for t in set(x for x in list(U.subterms(l)) + list(U.subterms(r)) if x[0] == "idx" and x[2] in ix):
+                            l, r = U.subst(l, t, U.mk_elem(t[1])), U.subst(r, t, U.mk_elem(t[1]))
+                    cand.append((a, fors, l, r))
+                muts = [m for m in U.mutations_of(b["body"], table[1]) if m.get("k") == "mcall" and m["name"] not in ("len", "map", "iter", "iter_mut", "first", "get")]
+                for m in muts:
+                    R.unrecognised(rid, "reorder.table", "mutation of the lookup table other than an element-wise fill: %s" % H.render(m), m.get("sp"))
+                loops_ok = [U.parse(x, env) for x in sr["table_loops"]]
+                ok = covers = False
+                got = None
+                a = fors = None
+                if len(cand) == 1:
+                    a, fors, l, r = cand[0]
+                    got = "%s = %s" % (U.show(l), U.show(r))
+                    covers = len(fors) == 1 and nz.term(fors[0]["iter"]) in loops_ok
+                    ok = l == want_l and r == want_r and covers
+                R.inst(rid, "table-fill", ok, sp=(a or b)["sp"], expect="%s = %s in a loop over all N positions" % (sr["table_elem"], sr["table_value"]),
+                       got=got if got else "%d writes into the table" % len(cand),
+                       detail="position i of the new order takes the old namespace called namespaces[i]")
+                if a is not None:
+                    conds = U.cond_terms(nz, b["body"], a)
+                    R.inst(rid, "table-fill-every-position", covers and conds == [], sp=a["sp"], expect="unconditional, for every position 0..N",
+                           got=[U.show(nz.term(f["iter"])) for f in fors] + U.show_conds(conds))
+                    order = U.order_index(b["body"])
+                    uses = [n for n in H.walk(b["body"]) if n.get("k") == "path" and n["res"].get("r") == "local" and n["res"].get("id") == table[1]
+                            and not (fors and any(x is n for x in H.walk(fors[0])))]
+                    first_use = min((order[id(u)] for u in uses), default=None)
+                    R.inst(rid, "table-complete-before-use", bool(fors) and first_use is not None and order[id(fors[0])] < first_use,
+                           sp=a["sp"], detail="the loop that fills the table precedes the remapper construction and the rebuild")
             # the remapper
             env2 = U.build_env(sr["params"], sr["let"], extra={"table": table})
             want = env2["remapper"]
@@ -117,21 +135,13 @@ def r08_2(q, R, spec):
     gb = q.fn("get_namespace", impl_ty="quill::tree::names::Namespaces<")
     if R.anchor(rid, "Namespaces::get_namespace", gb) and R.anchor(rid, "get_namespace parameters", len(gb["params"]) == 2, gb["sp"]):
         nz = U.Norm(gb, sg["params"])
-        env = U.build_env(sg["params"], sg["let"])
-        rets = [n for n in H.walk(gb["body"]) if n.get("k") == "ret" and not H.is_err_exit(n)]
-        fors = [n for n in H.walk(gb["body"]) if n.get("k") == "for"]
-        ans = U.parse(sg["answer"], env)
-        cond = U.parse(sg["condition"], env)
-        ok = (len(rets) == 1 and len(fors) == 1 and nz.term(fors[0]["iter"]) == U.parse(sg["over"], env)
-              and nz.term(rets[0]) == ("ret", ans) and any(x is rets[0] for x in H.walk(fors[0]["body"])))
-        conds = U.cond_terms(nz, fors[0]["body"], rets[0]) if ok else []
-        ok = ok and (conds == [("if", cond, True)] or conds == [("if", ("bin", "==", cond[3], cond[2]), True)])
-        R.inst(rid, "get_namespace:position-of-equal-name", ok, sp=gb["sp"], expect="return %s if %s" % (U.show(ans), U.show(cond)),
-               got=[U.show(nz.term(r)) for r in rets] + U.show_conds(conds))
-        tail = H.peel(gb["body"]).get("tail")
-        last = tail if tail is not None else (H.peel(gb["body"])["stmts"][-1] if H.peel(gb["body"]).get("stmts") else None)
-        R.inst(rid, "get_namespace:unknown-is-error", last is not None and nz.term(last) == ("err",), sp=gb["sp"],
-               detail="an unknown namespace name is an error, not a default index")
+        env = U.build_env(sg["params"])
+        want = U.parse(sg["value"], env)
+        act = U.result_term(nz)        # search loop with early return = Iterator::position; `None => bail!` is transparent like `?`
+        R.inst(rid, "get_namespace:position-of-equal-name", act == want, sp=gb["sp"], expect=U.show(want), got=U.show(act) if act else None,
+               detail="the index of the first namespace whose name equals the argument")
+        R.inst(rid, "get_namespace:unknown-is-error", act is not None and not any(t[0] in ("orelse", "case", "if") for t in U.subterms(act)), sp=gb["sp"],
+               got=U.show(act) if act else None, detail="an unknown namespace name is an error, not a default index")
     R.floor(rid, 4 + 5 + 2)
     return table
 
